@@ -446,6 +446,13 @@ pub fn op_reader(cmd: &J) -> Result<J, String> {
 				.unwrap_or_default();
 			let mut cr = ChunkedReader::new(file.clone(), sched);
 			cr.fail_at_refill = rd.get("fail_at_refill").and_then(|x| x.as_u64()).map(|x| x as usize);
+			cr.fail_kind = match rd.get("fail_kind").and_then(|x| x.as_str()) {
+				Some("interrupted") => std::io::ErrorKind::Interrupted,
+				Some("connection_reset") => std::io::ErrorKind::ConnectionReset,
+				Some("would_block") => std::io::ErrorKind::WouldBlock,
+				Some("unexpected_eof") => std::io::ErrorKind::UnexpectedEof,
+				_ => std::io::ErrorKind::Other,
+			};
 			let r = Reader::new_and_metadata::<UserMeta>(serde_avro_fast::de::read::ReaderRead::new(cr));
 			run_reader(r, n_calls, hints, (0, 0), api)
 		}
